@@ -1,0 +1,121 @@
+//go:build verif
+
+package node
+
+import (
+	"sort"
+	"time"
+)
+
+// Re-exports for the verification harness (/verif, property C23).  Compiled only
+// with -tags verif.  They let the harness drive the IPAM garbage collector's real
+// handlers synchronously (instead of through acceptScheduleRequests), read its
+// bookkeeping, and SIMULATE the passing of time: the collector only ever looks
+// at `time.Since(<stored timestamp>)`, so moving every stored timestamp back by
+// d is observationally the same as the wall clock advancing by d.
+
+// VerifHandleUpdate feeds one syncer update / status to the controller.
+func (c *IPAMController) VerifHandleUpdate(upd any) { c.handleUpdate(upd) }
+
+// VerifSync runs one syncIPAM; full requests a full scan first (periodic sync / node deletion).
+func (c *IPAMController) VerifSync(full bool) error {
+	if full {
+		c.fullScanNextSync("verif")
+	}
+	return c.syncIPAM()
+}
+
+// VerifMarkDirty is what a pod-deletion event does (allocationState.markDirtyPodDeleted).
+func (c *IPAMController) VerifMarkDirty(node string) { c.allocationState.markDirty(node, "verif pod deleted") }
+
+// VerifAdvanceClock makes d of wall-clock time appear to pass for the collector.
+func (c *IPAMController) VerifAdvanceClock(d time.Duration) {
+	seen := map[*allocation]bool{}
+	for _, allocs := range c.allocationsByBlock {
+		for _, a := range allocs {
+			if a.leakedAt != nil && !seen[a] {
+				seen[a] = true
+				t := a.leakedAt.Add(-d)
+				a.leakedAt = &t
+			}
+		}
+	}
+	for k, t := range c.blockReleaseTracker.blocks {
+		c.blockReleaseTracker.blocks[k] = t.Add(-d)
+	}
+}
+
+// VerifAlloc is a read-only copy of one tracked allocation.
+type VerifAlloc struct {
+	ID, IP, Handle, Block, Node, KNode string
+	Seq                             uint64
+	Candidate, Confirmed            bool
+}
+
+// VerifState is a read-only, sorted copy of the collector's bookkeeping.
+type VerifState struct {
+	ByBlock        []VerifAlloc // allocationsByBlock, flattened
+	ByNode         []string     // "node|id" for allocationState.allocationsByNode
+	ByHandle       []string     // "handle|id" for handleTracker
+	ConfirmedLeaks []string     // ids
+	DirtyNodes     []string
+	NodesByBlock   []string // "block|node"
+	BlocksByNode   []string // "node|block"
+	EmptyBlocks    []string // "block|node"
+	ReleaseTracked []string // blocks with a first-seen-empty timestamp
+	AllBlocks      []string
+	KNodes         []string // "calico|k8s"
+	FullSync       bool
+}
+
+func (c *IPAMController) VerifState() VerifState {
+	var s VerifState
+	for _, allocs := range c.allocationsByBlock {
+		for id, a := range allocs {
+			s.ByBlock = append(s.ByBlock, VerifAlloc{ID: id, IP: a.ip, Handle: a.handle, Block: a.block, Node: a.node(), KNode: a.knode,
+				Seq: a.sequenceNumber, Candidate: a.isCandidateLeak(), Confirmed: a.isConfirmedLeak()})
+		}
+	}
+	sort.Slice(s.ByBlock, func(i, j int) bool { return s.ByBlock[i].ID < s.ByBlock[j].ID })
+	for n, allocs := range c.allocationState.allocationsByNode {
+		for id := range allocs {
+			s.ByNode = append(s.ByNode, n+"|"+id)
+		}
+	}
+	for h, allocs := range c.handleTracker.allocationsByHandle {
+		for id := range allocs {
+			s.ByHandle = append(s.ByHandle, h+"|"+id)
+		}
+	}
+	for id := range c.confirmedLeaks {
+		s.ConfirmedLeaks = append(s.ConfirmedLeaks, id)
+	}
+	for n := range c.allocationState.dirtyNodes {
+		s.DirtyNodes = append(s.DirtyNodes, n)
+	}
+	for b, n := range c.nodesByBlock {
+		s.NodesByBlock = append(s.NodesByBlock, b+"|"+n)
+	}
+	for n, bs := range c.blocksByNode {
+		for b := range bs {
+			s.BlocksByNode = append(s.BlocksByNode, n+"|"+b)
+		}
+	}
+	for b, n := range c.emptyBlocks {
+		s.EmptyBlocks = append(s.EmptyBlocks, b+"|"+n)
+	}
+	for b := range c.blockReleaseTracker.blocks {
+		s.ReleaseTracked = append(s.ReleaseTracked, b)
+	}
+	for b := range c.allBlocks {
+		s.AllBlocks = append(s.AllBlocks, b)
+	}
+	for cn, kn := range c.kubernetesNodesByCalicoName {
+		s.KNodes = append(s.KNodes, cn+"|"+kn)
+	}
+	for _, l := range [][]string{s.ByNode, s.ByHandle, s.ConfirmedLeaks, s.DirtyNodes, s.NodesByBlock, s.BlocksByNode, s.EmptyBlocks, s.ReleaseTracked, s.AllBlocks, s.KNodes} {
+		sort.Strings(l)
+	}
+	s.FullSync = c.fullSyncRequired
+	return s
+}
